@@ -1,5 +1,6 @@
 SPECIFICATION JSpec
 CONSTANTS
+    MaxBarriers = 0
     Inputs <- MCInputsOn3
     Configs <- MCConfigsOn
 INVARIANTS
